@@ -808,6 +808,11 @@ def gen_C13(seed, tier):
         later = g.r.choice(["call FDC 0 1 0", "call FDC 1 1 0", "call FDC 2 1 0", "call CSV 1 0", "call CJ 1 0", "call CVE 1 0"])
         # earlier calls: same (on-manifold) configuration, other velocities / forces
         stA = [st[0]] + mb.state_lines()[1:]
+        # ... with a velocity on the constraint manifold (off it the acceleration certificate is not claimed)
+        qdA = cb.project_velocity(cb.G, [g.small() for _ in range(mb.nv)])
+        if qdA is None:
+            continue
+        stA[1] = "qd %d %s" % (mb.nv, G.frs(qdA))
         hist = g.r.sample(["call IMP 0", "call FDC 1 1 0", "call CSV 1 0", "call ID", "call FD", "call CRBA 1"], 2)
         ca, cb_ = "c13cp_%d" % made, "c13cq_%d" % made
         out += ["case " + ca, grav] + mb.lines + pre + [later]
